@@ -14,7 +14,7 @@ enum {
 	D_KEY_MISMATCH_SIGN, D_KEY_MISMATCH_ENC, D_ENC_FOREIGN,
 	D_NO_CLIENT_CERT, D_DROP_CLIENT_CERT, D_EMPTY_CLIENT_CERT, D_DROP_CERT_VERIFY,
 	D_FOREIGN_ROOT_SAMENAME_SENT, D_FOREIGN_ROOT_OTHERNAME_SENT,
-	D_JUNK_SIGNATURE, D_ISSUER_BELOW_V1, D_LEAF_FAR_FUTURE, D_SUB_FAR_FUTURE,
+	D_JUNK_SIGNATURE, D_ISSUER_BELOW_V1, D_LEAF_FAR_FUTURE, D_SUB_FAR_FUTURE, D_SIGALG_RELABELLED,
 	D_NKINDS
 };
 static const char *g_dnames[D_NKINDS] = {
@@ -27,6 +27,7 @@ static const char *g_dnames[D_NKINDS] = {
 	"no_client_certificate", "client_certificate_removed", "client_certificate_empty", "certificate_verify_removed",
 	"foreign_root_same_name_sent_in_chain", "foreign_root_other_name_sent_in_chain",
 	"junk_signature", "issuer_below_v1_certificate", "leaf_valid_from_far_future", "intermediate_valid_from_far_future",
+	"foreign_chain_relabelled_as_ecdsa",
 };
 
 /* which defects make sense for (proto, role, depth) */
@@ -170,6 +171,7 @@ static int build_defect(const Plan *p, const CredSet *good, CredSet *bad, Plan *
 	case D_PATHLEN_EXCEEDED: o.sub_pathlen[1] = 0; derive = 1; break;
 	case D_ISSUER_IS_LEAF: o.issuer_is_leaf = 1; derive = 1; break;
 	case D_ISSUER_BELOW_V1: o.issuer_below_v1 = 1; derive = 1; break;
+	case D_SIGALG_RELABELLED: o.foreign_root = 1; derive = 1; break;      /* and see below */
 	case D_LEAF_FAR_FUTURE: case D_SUB_FAR_FUTURE: {
 		/* notBefore 68..137 years ahead: differences that no longer fit 31 resp. 32 bits of seconds */
 		int64_t far = (int64_t[]){ 0x7fffffffLL + 5, 0x80000000LL + 86400, 0xfffffff0LL, 0x100000000LL - 86400 * 30, 0x100000000LL + 3600 }[rng_below(&r, 5)];
@@ -208,6 +210,15 @@ static int build_defect(const Plan *p, const CredSet *good, CredSet *bad, Plan *
 		if (sm2_key_generate(&g_wrong_key) != 1) die("keygen");
 		g_mismatch = 2; break;
 	case D_NO_CLIENT_CERT: g_nocert = 1; break;
+	case D_SIGALG_RELABELLED: {
+		/* a chain made under a self-made root of the trusted name, with every "sm2sign-with-sm3" AlgorithmIdentifier
+		 * rewritten to ecdsa-with-SHA256 (same length): signatures a verifier cannot check are not valid signatures */
+		static const uint8_t sm2[10] = { 0x06, 0x08, 0x2a, 0x81, 0x1c, 0xcf, 0x55, 0x01, 0x83, 0x75 };
+		static const uint8_t ecd[10] = { 0x06, 0x08, 0x2a, 0x86, 0x48, 0xce, 0x3d, 0x04, 0x03, 0x02 };
+		int n = 0;
+		for (size_t i = 0; i + 10 <= chain_len; i++) if (!memcmp(chain + i, sm2, 10)) { memcpy(chain + i, ecd, 10); n++; }
+		snprintf(note, nlen, "%d AlgorithmIdentifiers relabelled", n);
+		break; }
 	case D_JUNK_SIGNATURE:
 		/* genuine chain, but whatever the prover signs comes out as junk (raw r||s, OCTET STRING, one byte,
 		 * random well-formed signature, empty, SET tag) */
